@@ -21,6 +21,7 @@ import (
 type ecKey struct {
 	priv  []Value // 32 key bytes (nil for a parsed public key)
 	pub   []Value // compressed encoding, 33 cells
+	pubU  []Value // uncompressed encoding, 65 cells (04 | X | Y)
 	bytes []Value // the bytes a parsed key came from
 }
 
@@ -80,6 +81,27 @@ func (in *Interp) ecPub(k *ecKey) []Value {
 	pre := tb.Ite(odd, tb.BVConst(8, 3), tb.BVConst(8, 2))
 	k.pub = append([]Value{pre}, in.splitBytes(x, 32)...)
 	return k.pub
+}
+
+// ecPubU: the uncompressed encoding 04 | X | Y of the same point (X shared with the compressed
+// form, Y a further uninterpreted function of the key).
+func (in *Interp) ecPubU(k *ecKey) []Value {
+	if k.pubU != nil {
+		return k.pubU
+	}
+	c := in.ecPub(k)
+	y := in.tb.App("ecdsa_puby", BV(256), in.concatCells(k.priv))
+	k.pubU = append([]Value{in.tb.BVConst(8, 4)}, c[1:]...)
+	k.pubU = append(k.pubU, in.splitBytes(y, 32)...)
+	return k.pubU
+}
+
+// ecPubForms: the encodings under which a model-made key can appear in a script.
+func (in *Interp) ecPubOfLen(k *ecKey, n int) []Value {
+	if n == 65 {
+		return in.ecPubU(k)
+	}
+	return in.ecPub(k)
 }
 
 // hashEqIdeal: equality of two digests; if both are outputs of the same hash UF, equality of the
@@ -192,6 +214,16 @@ func init() {
 		}
 		return Slice{A: append([]Value{}, in.ecPub(k)...)}
 	})
+	reg("(*github.com/libsv/go-bk/bec.PublicKey).SerialiseUncompressed", func(in *Interp, fr *frame, a []Value) Value {
+		k := a[0].(*Opaque).Data.(*ecKey)
+		if k.priv == nil {
+			if len(k.bytes) == 65 {
+				return Slice{A: append([]Value{}, k.bytes...)}
+			}
+			panic(engineAbort{"ecdsa model: SerialiseUncompressed of a parsed compressed key"})
+		}
+		return Slice{A: append([]Value{}, in.ecPubU(k)...)}
+	})
 	reg("(*github.com/libsv/go-bk/bec.PrivateKey).Sign", func(in *Interp, fr *frame, a []Value) Value {
 		in.usedStubs["ecdsa: ideal signature scheme (see engine/ecdsa.go)"] = true
 		tb := in.tb
@@ -250,7 +282,7 @@ func init() {
 		// on-curve check: uninterpreted, except for keys the model derived itself
 		onCurve := tb.App(fmt.Sprintf("ecdsa_oncurve_%d", len(bs)), SBool, in.concatCells(bs))
 		for _, dk := range in.ec().keys {
-			pub := in.ecPub(dk)
+			pub := in.ecPubOfLen(dk, len(bs))
 			if len(pub) == len(bs) {
 				in.addPC(tb.Implies(in.bytesEq(Slice{A: pub}, Slice{A: bs}), onCurve))
 			}
@@ -312,7 +344,7 @@ func init() {
 		// signature is one the model made with that key over an equal digest
 		made := tb.False
 		for _, rec := range in.ec().signs {
-			rp := in.ecPub(rec.key)
+			rp := in.ecPubOfLen(rec.key, len(pub))
 			if len(rp) != len(pub) || len(rec.sig) != len(sig.bytes) {
 				continue
 			}
